@@ -1327,7 +1327,7 @@ def item_outcome(builder, atoms: dict[str, Optional[bool]], env: Optional[dict] 
 
 # --------------------------------------------------------------------------- folding a small pure function over given inputs
 
-def fold_function(fi: FuncInfo, inputs: dict[str, object], max_steps: int = 200) -> tuple[str, object]:
+def fold_function(fi: FuncInfo, inputs: dict[str, object], max_steps: int = 200, *, only_names: Optional[set] = None, want: Optional[list] = None) -> tuple[str, object]:
     """What a small decision function does for given inputs, read off its source: ('return', value), ('raise', exception name)
     or ('fall', None).  `inputs` maps the text of an expression (`'output_path.suffix'`, a parameter name) to the Python value it
     is to stand for.  Understood: assignments to names, if / elif / else, return, raise, comparisons (== != in not in is is not < <= > >=),
@@ -1426,9 +1426,25 @@ def fold_function(fi: FuncInfo, inputs: dict[str, object], max_steps: int = 200)
             raise _Exit('raise', v.name)
         return v
 
+    def stores_of(st) -> set:
+        return {n.id for n in ast.walk(st) if isinstance(n, ast.Name) and isinstance(n.ctx, ast.Store)}
+
     def run(stmts):
         for st in stmts:
             if isinstance(st, ast.Expr) and isinstance(st.value, ast.Constant):
+                continue
+            if only_names is not None:
+                # a slice of the function: only what decides the wanted names is followed, exits are not taken
+                if not (stores_of(st) & only_names) or isinstance(st, (ast.Return, ast.Raise)):
+                    continue
+                if isinstance(st, ast.Assign) and len(st.targets) == 1 and isinstance(st.targets[0], ast.Tuple) and all(isinstance(e, ast.Name) for e in st.targets[0].elts):
+                    vals = value(st.value)
+                    if not isinstance(vals, (tuple, list)) or len(vals) != len(st.targets[0].elts):
+                        raise Undecided(norm_text(st)[:60])
+                    for e, v in zip(st.targets[0].elts, vals):
+                        env[e.id] = v
+                    continue
+            if isinstance(st, ast.AnnAssign) and st.value is None:
                 continue
             if isinstance(st, ast.AnnAssign) and st.value is not None and isinstance(st.target, ast.Name):
                 env[st.target.id] = value(st.value)
@@ -1469,4 +1485,25 @@ def fold_function(fi: FuncInfo, inputs: dict[str, object], max_steps: int = 200)
         run(_body_wo_doc(fi.node))
     except _Exit as x:
         return x.kind, x.value
+    if want is not None:
+        return 'values', [value(e) for e in want]
     return 'fall', None
+
+
+def names_deciding(fi: FuncInfo, exprs: list[ast.AST], stop: Iterable[str] = ()) -> set[str]:
+    """The local names the given expressions depend on, transitively through the assignments of the function (parameters and `stop` excluded)."""
+    params = set(fi.params) | set(stop)
+    wanted = {n.id for e in exprs for n in ast.walk(e) if isinstance(n, ast.Name)} - params
+    changed = True
+    while changed:
+        changed = False
+        for st in ast.walk(fi.node):
+            if isinstance(st, (ast.Assign, ast.AnnAssign, ast.AugAssign)):
+                tg = {n.id for t in (st.targets if isinstance(st, ast.Assign) else [st.target]) for n in ast.walk(t) if isinstance(n, ast.Name)}
+                if tg & wanted and getattr(st, 'value', None) is not None:
+                    more = {n.id for n in ast.walk(st.value) if isinstance(n, ast.Name) and isinstance(n.ctx, ast.Load)} - params - wanted
+                    more = {m for m in more if any(isinstance(x, ast.Name) and x.id == m and isinstance(x.ctx, ast.Store) for x in ast.walk(fi.node))}
+                    if more:
+                        wanted |= more
+                        changed = True
+    return wanted
